@@ -28,7 +28,37 @@ HS = "black_it.samplers.halton:HaltonSampler"
 RS = "black_it.samplers.r_sequence:RSequenceSampler"
 
 
+def _cursor_kept_as_attribute(ctx: Context, cls_q: str, attrs: list[str]) -> None:
+    """The cursor rules read the cursor as a plain attribute of the sampler.  When no method of the class stores it any more (the state moved into another object),
+    what they would say about `self.<attr>` is about nothing: undecided."""
+    c = ctx.prog.find_class(cls_q.split(":")[-1])
+    stores = ctx.prog.attr_stores(c, inherited=True) if c is not None else {}
+    for a in attrs:
+        if not stores.get(a):
+            raise AnalysisError(f"{cls_q.split(':')[-1]} no longer stores `{a}`: the sequence cursor is kept in another structure, which the cursor rules do not read")
+
+
 def run(ctx: Context) -> None:
+    for q_, as_ in ((HS, ["_sequence_index"]), (RS, ["_sequence_index", "_sequence_start"])):
+        try:
+            _cursor_kept_as_attribute(ctx, q_, as_)
+        except AnalysisError as exc:
+            ctx.undecided.append(f"C13/cursor: {exc}")
+            which = ("halton", HS) if q_ == HS else ("rseq", RS)
+            ctx.skip_groups = getattr(ctx, "skip_groups", set()) | {which[0]}
+    skip = getattr(ctx, "skip_groups", set())
+    if "halton" in skip or "rseq" in skip:
+        if "halton" not in skip:
+            ctx.rule(halton_cursor)
+            ctx.rule(reseed, HS, ["_sequence_index"])
+        ctx.rule(halton_function)
+        if "rseq" not in skip:
+            ctx.rule(rseq_cursor)
+            ctx.rule(reseed, RS, ["_sequence_index", "_sequence_start"])
+            ctx.rule(rseq_scalars)
+        ctx.rule(plumbing)
+        ctx.rule(prime_cache)
+        return
     ctx.rule(halton_cursor)
     ctx.rule(halton_function)
     ctx.rule(rseq_cursor)
